@@ -1,12 +1,15 @@
 (* C09 - validation is deterministic up to blank-node labels and result order.
    Proved for the model: the order in which shapes are taken from the (set-valued) shape collection
    permutes the results and changes nothing else; the environment is a look-up table whose order is
-   immaterial; arbitrary-element picks from singleton sets are choice-independent. Independence
-   from triple insertion order, blank-node labels, prefix bindings and the hash seed in the real
-   code is decided by the multi-process differential (DESIGN.md). *)
+   immaterial; arbitrary-element picks from singleton sets are choice-independent; focus nodes, value
+   nodes and what each core component reports depend on WHICH triples the graphs hold, not on the order
+   (or multiplicity) in which they are listed. Independence from blank-node labels, prefix bindings and
+   the hash seed in the real code, and from insertion order beyond those three stages, is decided by
+   the multi-process differential (DESIGN.md). *)
 From Coq Require Import List NArith Bool Permutation.
 From Verif Require Import Base.SetList Base.Terms Paths.Path Shapes.AST Shapes.Leaf Shapes.Eval Shapes.OrderProofs Shapes.MemberOrder
-  Closure.Worklist Closure.WorklistProofs Gen.T4 Closure.ListCheck Closure.ListCheckProofs Gen.T5.
+  Closure.Worklist Closure.WorklistProofs Gen.T4 Closure.ListCheck Closure.ListCheckProofs Gen.T5
+  Paths.PathProofs Paths.PathOrder Shapes.TargetProofs Shapes.TargetOrder Shapes.LeafSpec Shapes.LeafOrder.
 Import ListNotations.
 
 Theorem C09_shape_order : forall trig W o sg g E explicit shapes shapes' c rs, abort o = false ->
@@ -78,3 +81,37 @@ Theorem C09_list_check_order_free : forall m m', (forall x, rest_of m x = rest_o
   (check check_rdf_lists_prog m = Accept <-> check check_rdf_lists_prog m' = Accept).
 Proof. exact check_order_free. Qed.
 Print Assumptions C09_list_check_order_free.
+
+(* Triple insertion order, stage by stage (two listings of the same triples: permutations, repetitions): *)
+(* - the focus nodes of a shape (data graph and shapes graph both re-listed) *)
+Theorem C09_focus_nodes_insertion_order : forall sg sg' g g' s,
+  same_triples sg sg' -> same_triples g g' ->
+  NoDup (focus_nodes sg g s) /\ NoDup (focus_nodes sg' g' s)
+  /\ forall x, In x (focus_nodes sg g s) <-> In x (focus_nodes sg' g' s).
+Proof. exact focus_nodes_order_free. Qed.
+Print Assumptions C09_focus_nodes_insertion_order.
+
+(* - the value nodes of any well-formed path within the supported depth *)
+Theorem C09_value_nodes_insertion_order : forall g g' p x,
+  same_triples g g' -> wf_path p = true -> fits p 0 = true ->
+  exists vs vs', value_nodes g p x = Ok vs /\ value_nodes g' p x = Ok vs' /\ NoDup vs /\ NoDup vs'
+                 /\ forall y, In y vs <-> In y vs'.
+Proof. exact value_nodes_order_free. Qed.
+Print Assumptions C09_value_nodes_insertion_order.
+
+(* - what a core component reports, given the value nodes in any order *)
+Theorem C09_component_insertion_order : forall W g g' l f vs vs',
+  same_triples g g' -> Permutation vs vs' ->
+  forall b, In b (leaf_bad W g l f vs) <-> In b (leaf_bad W g' l f vs').
+Proof. exact leaf_bad_order_free. Qed.
+Print Assumptions C09_component_insertion_order.
+
+Example C09_insertion_order_nonvacuous :
+  let g := [(IRI 1, IRI 100, IRI 2); (IRI 2, IRI 100, IRI 3); (IRI 3, IRI 100, IRI 1)] in
+  let g' := [(IRI 3, IRI 100, IRI 1); (IRI 1, IRI 100, IRI 2); (IRI 2, IRI 100, IRI 3); (IRI 1, IRI 100, IRI 2)] in
+  same_triples g g' /\ value_nodes g (PPlus (PPred 100)) (IRI 1) = Ok [IRI 2; IRI 3; IRI 1]
+  /\ value_nodes g' (PPlus (PPred 100)) (IRI 1) = Ok [IRI 2; IRI 3; IRI 1] /\ g <> g'.
+Proof.
+  cbv zeta. split; [|split; [vm_compute; reflexivity|split; [vm_compute; reflexivity|discriminate]]].
+  intros t; cbn [In]; tauto.
+Qed.
